@@ -40,8 +40,11 @@ Check(e) ==
          [] e.op = "1+" -> IF REq(r, RAdd(a, OfInt(One))) THEN "" ELSE "wrong"
          [] e.op = "1-" -> IF REq(r, RSub(a, OfInt(One))) THEN "" ELSE "wrong"
          [] e.op = "abs" -> IF r = R(Abs(a.n), a.d) THEN "" ELSE "wrong"
-         [] e.op = "max" -> IF r = (IF RCmp(a, b) >= 0 THEN a ELSE b) THEN "" ELSE "wrong"
-         [] e.op = "min" -> IF r = (IF RCmp(a, b) <= 0 THEN a ELSE b) THEN "" ELSE "wrong"
+         \* (of two or three arguments: e.n, the third one is e.c)
+         [] e.op = "max" -> LET m == IF RCmp(a, b) >= 0 THEN a ELSE b IN
+                            IF r = (IF e.n = 3 /\ RCmp(e.c, m) > 0 THEN e.c ELSE m) THEN "" ELSE "wrong"
+         [] e.op = "min" -> LET m == IF RCmp(a, b) <= 0 THEN a ELSE b IN
+                            IF r = (IF e.n = 3 /\ RCmp(e.c, m) < 0 THEN e.c ELSE m) THEN "" ELSE "wrong"
          [] e.op \in {"floor", "ceiling", "truncate", "round"} ->
               IF IsInt(r) /\ IsInt(e.r2) /\ DivOK(a.n, b.n, r.n, e.r2.n, e.op) THEN "" ELSE "wrong"
          [] e.op = "mod" -> IF IsInt(r) /\ DivOK(a.n, b.n, e.q, r.n, "floor") THEN "" ELSE "wrong"
